@@ -277,3 +277,6 @@ func hashChildren(l, r []byte) []byte {
 	h.Write(r)
 	return h.Sum(nil)
 }
+
+// Complete returns the hash of the complete subtree of 2^level leaves at the given index.
+func (t *Tree) Complete(level uint8, index uint64) Hash { return t.complete(level, index) }
